@@ -57,6 +57,11 @@ class PendingNamedExpr(PendingExprGeneric[NamedExpr]):
 
     def get_result(self) -> expr:
         assert self.value is not None
+        if any(isinstance(comp, PendingLambda) for comp in self.nsp.comp_stack):
+            # inside a lambda the target is a local variable of that lambda (PEP-572)
+            return NamedExpr(
+                target=Name(id=self.node.target.id, ctx=Store()), value=self.value
+            )
         result = self.nsp.get_assign(self.node.target.id, self.value)
         if not isinstance(result, NamedExpr):
             result = Subscript(
@@ -163,6 +168,18 @@ class PendingLambda(PendingExprGeneric[Lambda]):
             self.target_names.add(_args.vararg.arg)
         if _args.kwarg is not None:
             self.target_names.add(_args.kwarg.arg)
+        # names bound by an assignment expression in the body are local as well
+        # (a nested lambda has its own; its defaults belong to this body)
+        todo: list[AST] = [node.body]
+        while todo:
+            sub_node = todo.pop()
+            if isinstance(sub_node, Lambda):
+                todo.extend(sub_node.args.defaults)
+                todo.extend(d for d in sub_node.args.kw_defaults if d is not None)
+                continue
+            if isinstance(sub_node, NamedExpr):
+                self.target_names.add(sub_node.target.id)
+            todo.extend(iter_child_nodes(sub_node))
 
         self.iter_fields = self._iter_fields()
 
